@@ -27,7 +27,7 @@ PID = "C08"
 PROP_FILE = "Properties/C08.v"
 TRUSTED = [
     "Coq 8.16.1 kernel (coqc); vm_compute only in the two refutation witnesses and the non-vacuity Examples",
-    "hand model coq/Model/Binding.v of argument_stack + visit_Call_Lambda / visit_Name / resolve_id (names only: statements, types and rep caching are abstracted away) and of the name-keyed rewriters",
+    "hand model coq/Model/Binding.v of argument_stack + visit_Call_Lambda / visit_Name / resolve_id (names only: statements, types and rep caching are abstracted away: the model is call-by-name where the translator memoises an argument's rep at its first lookup; correspondence cases where that can matter - a directly applied lambda's parameter used twice - are counted as skipped) and of the name-keyed rewriters",
     "extraction (ExtrOcamlBasic, ExtrOcamlString) + ocaml/main.ml driver + S-expression codec tools/fv/sexp.py",
     "correspondence = differential test bounded by the generators below: model-resolved term printed back as a query vs. the original query, whole pipeline, three back ends",
     "qastle, func_adl.extract_metadata, func_adl simplify_chained_calls are third-party: only differentially tested (variants 1, 3, 4); nothing proved",
@@ -594,6 +594,8 @@ def model_vs_impl(src: str, backend: str, model: "core.Model"):
     if rm[0] != "ok":
         if r1 == ("error", "RecursionError"):
             return ("same", {"direct": direct, "both": "unbounded recursion / out of fuel"})
+        if shares_heavy_argument(src):
+            return ("skipped", "an argument of a directly applied lambda is looked up more than once (rep caching = call by need, model = call by name)")
         return ("differ", {"model": rm, "implementation": r1[:2] if r1[0] == "error" else "ok"})
     rebuilt = ast.fix_missing_locations(codec.dec(rm[1]))
     exe2 = impl.executors()[backend]()
@@ -606,16 +608,17 @@ def model_vs_impl(src: str, backend: str, model: "core.Model"):
     if r1 == r2:
         return ("same", {"direct": direct, "accepted": r1[0] == "ok"})
     if shares_heavy_argument(src):
-        return ("skipped", "a statement-emitting argument is used more than once: the translator evaluates the shared node once (rep caching), the printed term repeats it; sharing is outside the model")
+        return ("skipped", "an argument of a directly applied lambda is looked up more than once (rep caching = call by need, model = call by name)")
     return ("differ", {"direct": direct, "query": r1[0] if r1[0] == "ok" else r1, "printed_model_term": r2[0] if r2[0] == "ok" else r2,
                        "printed": ast.unparse(_printable(rebuilt))})
 
 
 def shares_heavy_argument(src: str) -> bool:
+    """a parameter of a directly applied lambda occurs more than once: the translator evaluates the argument node
+    at its first lookup and keeps the rep on the node (call by need), the model re-resolves it at every lookup
+    (call by name).  The two agree unless the argument emits statements or is looked up under two different
+    captures; those cases are outside the model and are counted as skipped"""
     tree = ast.parse(src, mode="eval").body
-    heavy = ".kids()" in src  # the only statement-emitting construct the direct-application generator uses
-    if not heavy:
-        return False
     for n in ast.walk(tree):
         if isinstance(n, ast.Call) and isinstance(n.func, ast.Subscript) and isinstance(n.func.value, ast.Tuple) \
                 and n.func.value.elts and isinstance(n.func.value.elts[0], ast.Lambda):
@@ -720,6 +723,12 @@ CORPUS = [
     dict(kind="alpha", backend="atlas", why="a parameter named like a known function is rewritten when called", key="c08:param-named-like-function",
          a='ds.Select(lambda e: e.Jets("A").Select(lambda sin: sin(1.0)))',
          b='ds.Select(lambda e: e.Jets("A").Select(lambda f: f(1.0)))'),
+    dict(kind="alpha", backend="atlas", why="parameter named like an operator and used as its source",
+         a='ds.Select(lambda eb: eb.Jets("a")).Select(lambda s: s.Select(lambda j: j.pt()))',
+         b='ds.Select(lambda eb: eb.Jets("a")).Select(lambda Select: Select.Select(lambda j: j.pt()))'),
+    dict(kind="alpha", backend="atlas", why="func_adl beta-reduces Where.Where into a nested lambda that rebinds the name",
+         a='ds.Select(lambda e: e.Jets("a").Where(lambda a: a.eta() > 0).Where(lambda x: x.kids().Where(lambda k: k.pt() >= 1.5).Count() > 1).Select(lambda f: f.phi()))',
+         b='ds.Select(lambda e: e.Jets("a").Where(lambda a: a.eta() > 0).Where(lambda x: x.kids().Where(lambda x: x.pt() >= 1.5).Count() > 1).Select(lambda f: f.phi()))'),
     dict(kind="alpha", backend="atlas", why="the test suite's nested lambda reusing an argument name",
          a='ds.Select(lambda e: e.Jets("A").Select(lambda j: e.Tracks("T").Where(lambda t: t.pt() > j.pt()).Count()))',
          b='ds.Select(lambda x: x.Jets("A").Select(lambda j: x.Tracks("T").Where(lambda x: x.pt() > j.pt()).Count()))'),
@@ -985,7 +994,8 @@ def check(tier: str, seed: int, t0: float, build: core.BuildStatus) -> int:
         "model_available": model is not None,
         "fragment": "theorems C08_alpha_partial/_open cover queries without directly applied lambdas; C08_rename covers the whole model for consistent injective renamings; C08_alpha_refuted and C08_known_function_param_refuted are replayed on the implementation by the corpus",
     }
-    if not [v for v in oc.violations if not v.no_failing_input] and (ps.broken or oc.correspondence_breaks or model is None or core.build_hygiene_cache()):
+    known_keys = {k["key"] for k in core.known_findings() if k.get("property") == PID and k.get("status") == "known"}
+    if not [v for v in oc.violations if not v.no_failing_input and v.key not in known_keys] and (ps.broken or oc.correspondence_breaks or model is None or core.build_hygiene_cache()):
         what = ps.broken or (f"correspondence Binding model vs translator: {json.dumps(oc.correspondence_breaks[0], default=str)[:700]}" if oc.correspondence_breaks else
                              ("hygiene gate: " + "; ".join(core.build_hygiene_cache()) if core.build_hygiene_cache() else "model executable could not be built"))
         oc.violations.append(core.Violation(key="c08:unproved", what=what, no_failing_input=True,
